@@ -1,7 +1,75 @@
 import ConfModel.Driver.Common
+import ConfModel.Model.Config
+import ConfModel.Spec.Config
 namespace ConfModel.Driver.C06
-open Lean ConfModel.Driver
+open Lean ConfModel.Driver ConfModel.Config
 
-def handle : Handler := fun op _inp _impl => bad ("C06: unknown op " ++ op)
+def tri (j : Json) : Option Bool :=
+  match int j with
+  | 0 => some false
+  | 1 => some true
+  | _ => none
+
+def entryOf (j : Json) : Entry :=
+  let g (k : String) := field j k
+  { v := Ver.ofNum (nat (g "v")), p := Proto.ofNum (nat (g "p")), c := Codec.ofNum (nat (g "c")),
+    z := Comp.ofNum (nat (g "z")), s := ST.ofNum (nat (g "s")),
+    tls := tri (g "tls"), certs := tri (g "certs"), limit := tri (g "limit") }
+
+def configOf (inp : Json) : Config :=
+  let fl := (arr (field inp "flags")).map tri
+  let g (i : Nat) : Option Bool := (fl[i]?).getD none
+  { features :=
+      { versions := (natList (field inp "versions")).map Ver.ofNum,
+        protocols := (natList (field inp "protocols")).map Proto.ofNum,
+        codecs := (natList (field inp "codecs")).map Codec.ofNum,
+        comps := (natList (field inp "comps")).map Comp.ofNum,
+        sts := (natList (field inp "sts")).map ST.ofNum,
+        h2c := g 0, tls := g 1, certs := g 2, trailers := g 3, halfH1 := g 4, get := g 5, limit := g 6 },
+    includes := (arr (field inp "inc")).map entryOf,
+    excludes := (arr (field inp "exc")).map entryOf }
+
+def sortedCodes (cs : List Case) : List Nat :=
+  let a := (cs.map Case.code).toArray.qsort (· < ·)
+  -- drop repetitions (the model's list is read as a set)
+  (a.foldl (fun (acc : Array Nat) x => if acc.back? == some x then acc else acc.push x) #[]).toList
+
+def errClass : CfgErr → String
+  | .features _ => "features"
+  | .includeCase i _ => s!"include#{i}"
+  | .excludeCase i _ => s!"exclude#{i}"
+  | .zeroCases => "zero-cases"
+
+def handle : Handler := fun op inp impl =>
+  match op with
+  | "cfg" =>
+    let cfg := configOf inp
+    let implErr := str (field impl "err")
+    let implCases := natList (field impl "cases")
+    if !(isNull (field impl "panic")) then
+      { agree := false, holds := false, why := "panic: " ++ str (field impl "panic") } else
+    -- the model of the code
+    let (mErr, mCases) : String × List Nat := match parseConfig cfg with
+      | .error e => (errClass e, [])
+      | .ok cs => ("", sortedCodes cs)
+    let agree := implErr == mErr && implCases == mCases
+    -- the property: rejected iff contradictory or empty, otherwise exactly the specified set
+    let f := defaults cfg.features
+    -- `Rejected cfg` (Spec), evaluated so that `specSet` is enumerated only once
+    let contra := decide (Contradictory cfg.features f) ||
+      (cfg.includes ++ cfg.excludes).any (fun e => decide (EntryContradictory f e))
+    let spec := if contra then [] else (specSet f cfg.includes cfg.excludes).map Case.code
+    let rejected := contra || spec.isEmpty
+    let holds := if rejected then implErr != "" else implErr == "" && implCases == spec
+    let why := if holds then "" else
+      if rejected then "accepted: the configuration is contradictory or specifies no case, but a set was returned"
+      else if implErr != "" then s!"rejected ({implErr}) although the configuration is consistent and specifies {spec.length} case(s)"
+      else s!"wrong-set: returned {implCases.length} case(s), specified {spec.length}; missing {(spec.filter (!implCases.contains ·)).take 5}, extra {(implCases.filter (!spec.contains ·)).take 5}"
+    { agree := agree, holds := holds,
+      nontrivial := !rejected && (!cfg.includes.isEmpty || !cfg.excludes.isEmpty || spec.length > 1),
+      model := if mErr != "" then Json.mkObj [("err", mErr)] else Json.mkObj [("cases", toJson mCases.length)],
+      why := why,
+      cls := if rejected then (if mErr != "" then mErr.takeWhile (· != '#') |>.toString else "rejected") else "set" }
+  | _ => bad ("C06: unknown op " ++ op)
 
 end ConfModel.Driver.C06
